@@ -76,6 +76,11 @@ CLAIMED = {
     technique='ast decision-table extraction: CFG path conditions of the handler canonicalised to linear atoms and compared with the documented formula by exhaustive truth table; base;verify shape rule; (builders: template boolean domain)',
     text='The property touches its values only through comparisons, so the orderings are finite: the if/elif/else formula of OP_CHECK_TIMESTAMP and OP_CHECK_EPOCH is extracted from the CFG (locals substituted, comparisons canonicalised to L >= 0 atoms) and shown equal to the documented formula on every assignment of the atoms - exhaustive over orderings including every boundary; the constraint decode is checked unsigned and the _VERIFY forms are base;verify. The three timestamp lock builders are decided by composing these tables over the embedded templates (C16.R4).',
     note='Trusted: CPython ast, tsa analyser. Assumes the presence/type guards before the comparison only reject malformed inputs, and that push d<ts> and the unsigned decode agree for ts >= 0.'),
+ 'C17': dict(
+    level='other', ref='DESIGN.md 4 C17',
+    technique='ast term-shape comparison: the Fiat-Shamir challenge input of each adapter maker (locals inlined down to stack pops and library calls) against the checker\'s; shape of decryption',
+    text='Narrow by design: decides one necessary condition of "the adapter passes the adapter check" - both makers must hash the same term shape as the checker (aggregate of nonce point and tweak point, key, message) - and that decryption is s = sa + t, RT = R + T. The identities for all scalars, clamping edge cases and corruption soundness are group algebra through opaque libsodium calls and are not decided (they quantify over runtime values).',
+    note='Trusted: CPython ast, tsa analyser. Known finding: the PRIVATE maker (listed in known_findings.json).'),
  'C19': dict(
     level='other', ref='DESIGN.md 4 C19',
     technique='interprocedural write-effect summaries (fixpoint over the call graph) used for an iteration/mutation conflict rule, a who-may-write rule for the module-level registries with call-graph unreachability from run/compile entry points, guard dominance for set semantics, and a mutable-default escape rule',
